@@ -504,7 +504,8 @@ func c18r8(rc *core.RC) {
 	rc.Touch("json.Valid")
 	info := p.Info(fd)
 	usesMore := false
-	var loop *ast.RangeStmt
+	var loop ast.Stmt
+	var loopBody *ast.BlockStmt
 	ast.Inspect(fd.Body, func(m ast.Node) bool {
 		switch x := m.(type) {
 		case *ast.CallExpr:
@@ -512,9 +513,9 @@ func c18r8(rc *core.RC) {
 				usesMore = true
 			}
 		case *ast.RangeStmt:
-			if sl, ok := core.Unparen(x.X).(*ast.SliceExpr); ok && sl.Low != nil && sl.High == nil {
-				loop = x
-			}
+			loop, loopBody = x, x.Body
+		case *ast.ForStmt:
+			loop, loopBody = x, x.Body
 		}
 		return true
 	})
@@ -528,7 +529,7 @@ func c18r8(rc *core.RC) {
 	}
 	// the loop body sends every non-whitespace byte to `return false`
 	var bs *core.ByteSwitch
-	ast.Inspect(loop.Body, func(m ast.Node) bool {
+	ast.Inspect(loopBody, func(m ast.Node) bool {
 		if sw, ok := m.(*ast.SwitchStmt); ok && bs == nil {
 			bs, _ = core.EvalByteSwitch(info, sw)
 		}
